@@ -34,7 +34,11 @@ var transTargets = []transTarget{
 	{"node/kafkaconsumer/recoverytracker.go", "", "min", "", "trackerMin"},
 	{"node/kafkaconsumer/recoverytracker.go", "", "max", "", "trackerMax"},
 	{"node/kafkaconsumer/recoverytracker.go", "RecoveryTracker", "AddRecoveryRequest", "loop0", "addRequestMergeBody"},
+	{"node/kafkaconsumer/recoverytracker.go", "RecoveryTracker", "AddRecoveryRequest", "head0", "addRequestHead"},
+	{"node/kafkaconsumer/recoverytracker.go", "RecoveryTracker", "AddRecoveryRequest", "tail0", "addRequestTail"},
 	{"node/kafkaconsumer/recoverytracker.go", "RecoveryTracker", "MarkRecoveryComplete", "loop0", "markCompleteBody"},
+	{"node/kafkaconsumer/recoverytracker.go", "RecoveryTracker", "MarkRecoveryComplete", "head0", "markCompleteHead"},
+	{"node/kafkaconsumer/recoverytracker.go", "RecoveryTracker", "MarkRecoveryComplete", "tail0", "markCompleteTail"},
 	{"node/kafkaconsumer/recoverytracker.go", "RecoveryTracker", "UpdateRecoveryRequest", "", "updateRequest"},
 	// C09
 	{"node/kafkaconsumer/recoveryconsumer.go", "RecoveryConsumer", "RefreshAssignments", "loop0", "refreshCandidateBody"},
@@ -42,6 +46,9 @@ var transTargets = []transTarget{
 	{"config/config.go", "", "assignNodeConfigDefaults", "loop0", "nodeDefaultsBody"},
 	// C01 / C02 / C16
 	{"node/node.go", "Context", "handleResult", "", "handleResult"},
+	{"node/node.go", "Context", "handleFailure", "", "handleFailure"},
+	// C04 / C16
+	{"node/node.go", "Context", "deliverToChild", "loop0", "deliverBody"},
 	// C14
 	{"node/elasticsearch/elastic_index_client.go", "ElasticIndexClient", "handleErrorResponses", "loop1", "esItemBody"},
 	// C15
@@ -231,6 +238,14 @@ func (t *translator) block(b *ast.BlockStmt) string {
 	return "(blk [" + strings.Join(out, ",\n    ") + "])"
 }
 
+func (t *translator) stmts(l []ast.Stmt) []string {
+	var out []string
+	for _, s := range l {
+		out = append(out, t.stmt(s)...)
+	}
+	return out
+}
+
 func (t *translator) stmt(s ast.Stmt) []string {
 	unsupported := func() []string { return []string{"(.unsupported " + leanStr(exprString(s)) + ")"} }
 	switch x := s.(type) {
@@ -340,8 +355,8 @@ func (t *translator) stmt(s ast.Stmt) []string {
 						return fmt.Sprintf("(.call [(%s, %s), (%s, %s)] %s [%s])", leanStr(lhs[0]), leanStr(fn+"#0"), leanStr(lhs[1]), leanStr(fn+"#1"), leanStr(fn), t.loose(ta.X))
 					})
 				}
-				if cl := compositeOf(x.Rhs[0]); cl != nil && len(lhs) == 1 && hasCall(cl) {
-					// x := T{k: f(), ...} with calls inside: a construction event, the fields as arguments
+				if cl := compositeOf(x.Rhs[0]); cl != nil && len(lhs) == 1 && cl.Type != nil && len(cl.Elts) > 0 {
+					// x := T{k: v, ...}: a construction event, the fields as arguments
 					return t.withPre(s, func() string {
 						var keys, args []string
 						for _, el := range cl.Elts {
@@ -409,6 +424,25 @@ func (t *translator) stmt(s ast.Stmt) []string {
 			}
 			return "(.ret [" + strings.Join(es, ", ") + "])"
 		})
+	case *ast.SelectStmt:
+		// select { case ch <- v: A  default: B }: a non-blocking send; whether the channel has room is the input "room <ch>"
+		if len(x.Body.List) == 2 {
+			var sendCl, defCl *ast.CommClause
+			for _, c := range x.Body.List {
+				cc := c.(*ast.CommClause)
+				if cc.Comm == nil {
+					defCl = cc
+				} else if _, ok := cc.Comm.(*ast.SendStmt); ok {
+					sendCl = cc
+				}
+			}
+			if sendCl != nil && defCl != nil {
+				snd := sendCl.Comm.(*ast.SendStmt)
+				th := append(t.stmt(snd), t.stmts(sendCl.Body)...)
+				el := t.stmts(defCl.Body)
+				return []string{fmt.Sprintf("(.ite %s\n    (blk [%s])\n    (blk [%s]))", vr("room "+exprString(snd.Chan)), strings.Join(th, ",\n    "), strings.Join(el, ",\n    "))}
+			}
+		}
 	case *ast.RangeStmt:
 		// for _, v := range coll { f(args) }: one event "foreach coll: f" (the pattern of fan-out loops)
 		if len(x.Body.List) == 1 && !hasCall(x.X) {
@@ -488,6 +522,25 @@ func writeTrans(repo string) string {
 			n := 0
 			fmt.Sscanf(tt.part, "loop%d", &n)
 			body = nthLoop(body, n)
+		}
+		if body != nil && (tt.part == "head0" || tt.part == "tail0") {
+			// the top-level statements before / after the first top-level loop of the function
+			idx := -1
+			for i, st := range body.List {
+				switch st.(type) {
+				case *ast.RangeStmt, *ast.ForStmt:
+					if idx < 0 {
+						idx = i
+					}
+				}
+			}
+			if idx < 0 {
+				body = nil
+			} else if tt.part == "head0" {
+				body = &ast.BlockStmt{List: body.List[:idx]}
+			} else {
+				body = &ast.BlockStmt{List: body.List[idx+1:]}
+			}
 		}
 		term := "(.unsupported \"missing\")"
 		if body != nil {
